@@ -156,10 +156,10 @@ def jobs_for(tier):
     add([(4, 2), (2,)], 2, hybrid=dict(replicate=2, group=-1), graft=None, fixed=dict(mom=0, wd=0))
     add([(4, 2), (3,)], 1, hybrid=dict(replicate=2, group=2, communicate_params=True), graft="sgd", fixed=dict(mom=0))
     if tier == "thorough":
-        add([(5, 2), (3,), (1, 3)], 4, graft=None, fixed=dict(mom=0))
+        add([(5, 2), (4,), (1, 3)], 4, graft=None, fixed=dict(mom=0))  # every rank keeps at least one non-empty local shard
         add([(4, 3)], 2, row_sizes={"0": [1, 3]}, graft="adagrad")
         add([(4, 2), (2, 2), (2,)], 2, presence="symbolic", graft="adam", fixed=dict(wd=0))
-        add([(4, 2), (3,)], 2, hybrid=dict(replicate=3, group=3), graft=None, fixed=dict(mom=0, wd=0))
+        add([(6, 2), (4,)], 2, hybrid=dict(replicate=3, group=3), graft=None, fixed=dict(mom=0, wd=0))  # >= 3 blocks on every shard rank
         add([(4, 2), (2,)], 2, hybrid=dict(replicate=2, group=1), graft=None, fixed=dict(mom=0, wd=0))
     return jobs
 
